@@ -105,7 +105,13 @@ def r1_precedence(ctx):
         ok = False
         if b:
             b['V_r'] = rv
-            ok = any(mexpr('V_n in V_r or (not V_r and V_a.allowed_for_design)', x, b) is not None for x in conj)
+            # some conjunct decides `permitted`: listed in a non-empty restriction, or - with no restriction - allowed for design
+            # (truth table; an element can only be listed in a non-empty list)
+            from .common import prop_equal, rename_vars
+            spec = 'N in R or (not R and A.allowed_for_design)'
+            ok = any(prop_equal(rename_vars(x, {b['V_n']: 'N', b.get('V_a', '?'): 'A', rv: 'R'}), spec,
+                                constraint=lambda env: not env.get('N in R') or env.get('R'), max_atoms=4)
+                     and 'allowed_for_design' in ast.unparse(x) for x in conj)
             for x in conj:
                 if mexpr("V_a.type_def == 'multi_band'", x, b) is not None:
                     kinds.add('==')
@@ -249,11 +255,38 @@ def r3_selection(ctx):
             rs = calls_to(so, {'get_node_restrictions'})
             rname = stmt_of(so, rs[0]).targets[0].id if len(rs) == 1 and isinstance(stmt_of(so, rs[0]), ast.Assign) else \
                 ('restrictions' if 'restrictions' in so.params else None)
-            ok = ok and len(defs) == 2 and rname is not None and \
-                mexpr("{V_n: V_a for V_n, V_a in equipment['Edfa'].items() if V_a.type_def != 'multi_band'}", defs[0].value) is not None and \
-                mexpr(f"{{V_n: V_a for V_n, V_a in {args[3]}.items() if V_n in {rname}}}", defs[1].value) is not None
-            g_if = enclosing(defs[1], ast.If) if len(defs) == 2 else None
-            ok = ok and g_if is not None and ast.unparse(g_if.test) == rname
+            # the membership predicate of the dict handed over, composed from its definitions: a comprehension over the library items,
+            # optionally re-filtered under a condition (`if restrictions: d = {.. for .. in d.items() if ..}` contributes cond -> filter);
+            # it must be equivalent (truth table over its atoms) to: not multi-band and (no restrictions or listed in them)
+            from .common import holds_at, prop_equal, rename_vars
+            pred = None
+            good = ok and rname is not None and 1 <= len(defs) <= 2
+            if ok and rname is not None and isinstance(sc[0].args[3], ast.DictComp):
+                # written in place as the argument
+                class _D:
+                    value = sc[0].args[3]
+                defs, good = [_D], True
+            for k_, d_ in enumerate(defs if good else []):
+                v = d_.value
+                g = v.generators[0] if isinstance(v, ast.DictComp) and len(v.generators) == 1 else None
+                if g is None or not (isinstance(g.target, ast.Tuple) and len(g.target.elts) == 2 and
+                                     all(isinstance(e, ast.Name) for e in g.target.elts)) or \
+                        ast.unparse(v.key) != g.target.elts[0].id or ast.unparse(v.value) != g.target.elts[1].id:
+                    good = False
+                    break
+                src_ok = ast.unparse(g.iter) == ("equipment['Edfa'].items()" if k_ == 0 else f'{args[3]}.items()')
+                filt = ast.BoolOp(op=ast.And(), values=list(g.ifs)) if len(g.ifs) > 1 else (g.ifs[0] if g.ifs else ast.Constant(value=True))
+                filt = rename_vars(filt, {g.target.elts[0].id: 'N', g.target.elts[1].id: 'A'})
+                conds = [c for c in holds_at(d_) if rname in c] if isinstance(d_, ast.AST) else []
+                if not src_ok or (k_ == 0 and conds) or (k_ == 1 and conds != [rname]):
+                    good = False
+                    break
+                if k_ == 0:
+                    pred = filt
+                else:
+                    pred = ast.BoolOp(op=ast.And(), values=[pred, ast.BoolOp(op=ast.Or(), values=[
+                        ast.UnaryOp(op=ast.Not(), operand=ast.Name(id=rname, ctx=ast.Load())), filt])])
+            ok = good and pred is not None and prop_equal(pred, f"A.type_def != 'multi_band' and (not {rname} or N in {rname})")
     ctx.check('R3.selection', f'{site(so)} permitted set handed over', bool(ok), key(so, 'permitted-set'),
               'select_edfa does not receive (library minus multi-band models, intersected with the restrictions when there are any), '
               'the gain/power targets and the configured extended-gain allowance')
